@@ -1,13 +1,17 @@
 import TracklibVerif.Lemmas.GraphBack
 import TracklibVerif.Lemmas.GraphPathExt
 import TracklibVerif.Lemmas.GraphMut
+import TracklibVerif.Lemmas.GraphR4
 import Mathlib.Algebra.Order.Group.Int
 /-! # C07 — a returned shortest path is a real, optimal, geometrically continuous route
 
 Property theorems only (helper lemmas: `Lemmas/GraphPath.lean` — the invariant on `antecedent` /
 `antecedent_edge`; `Lemmas/GraphBack.lean` — the backward walk). The model (`Model/Graph.lean`) mirrors
 `Network.shortest_path` = `run_routing_forward(source, target, cut)` followed by `run_routing_backward(target)`
-as it is after fix 9d0d428. Weights: any linearly ordered additive commutative monoid, non-negative (`WFNet`);
+as it is after fix 9d0d428. Weights: any linear order with an addition that satisfies `WalkAdd` (`Lemmas/Graph.lean`: adding
+a non-negative weight does not decrease a label, addition on the right is monotone — every linearly ordered additive
+commutative monoid, and also IEEE-754 round-to-nearest addition on the non-NaN doubles, which is not associative: the weight
+of a route is the sum taken from the source outwards, `((0 + w₁) + w₂) + …`, as the code takes it), non-negative (`WFNet`);
 edge ids unique (`UniqueIds`, `EDGES` is a dict); points: any type.
 
 Sections: the four theorems of the design (walk, optimal, geometry chained, unreachable ⇒ None) on point lists;
@@ -18,9 +22,10 @@ object and an optional `output_dict` (`session_*`, `backward_after_full_search`,
 `output_dict_entries_sound`); a network that is MODIFIED between the calls (`Model/GraphMut.lean`: edges and nodes added
 after searches, `getEdge(i).weight = w`, new polylines, moved nodes, `getEdge(i).orientation = o` — `mut_path_fresh`,
 `mut_path_optimal`, `mut_path_cut_sound`, `mut_geometry_chained`, `orientation_attribute_not_read`,
-`path_after_orientation_assignment`). Exact arithmetic: weights are elements of a linearly ordered additive commutative monoid
-(integers, rationals: what the exact correspondence streams use); float rounding of sums is outside the theorems
-(sampled by the float stream of the harness, model instantiated at `Float`).
+`path_after_orientation_assignment`). Arithmetic: no theorem uses associativity, commutativity or cancellation of `+`
+(`WalkAdd` only), so the statements are about the sums as the code rounds them — PROVIDED the double addition satisfies
+`WalkAdd`, which is a fact about IEEE-754 that is not proved here (Lean's `Float` is opaque); the float stream of the harness
+runs the same model instantiated at `Float` bit for bit. "The shortest distance" is then the least rounded sum over walks.
 
 `Route net geo s l g g' t y` (see `Lemmas/GraphBack.lean`) says: `l ++ [t]` is a list of nodes starting at `s` in which
 each consecutive pair is joined by an existing edge travelled in a direction its orientation permits, `y` is the sum of
@@ -29,7 +34,7 @@ travel and each without its last vertex (= the first vertex of the next polyline
 `g'` is the same concatenation with each polyline deprived of its first vertex instead. -/
 namespace TV.C07
 open TV.Graph
-variable {W : Type} [AddCommMonoid W] [LinearOrder W] [IsOrderedAddMonoid W] {P : Type}
+variable {W : Type} [LinearOrder W] [Add W] [Zero W] [WalkAdd W] {P : Type}
 
 /-- the state left by the forward pass of `shortest_path(s, t, cut)` satisfies both invariants -/
 theorem forward_state_good (net : Net W) (hnet : WFNet net) (s t : Nat) (hs : s < net.n) (cut : Option W) :
@@ -161,7 +166,7 @@ theorem path_cut_sound (net : Net W) (hnet : WFNet net) (hu : UniqueIds net) (ge
 /-! ### the track operators (`copy`, `reverse`, `>`, `+`) as modelled for C04 -/
 open TV.GraphExt
 
-omit [IsOrderedAddMonoid W] in
+omit [WalkAdd W] in
 /-- `shortest_path` with `run_routing_backward` written on TRACKS with the operators of the C04 model
 (`track = track + (edge_geom > 1)` = `Seq.concat track (Seq.dropFirst edge_geom 1)`, `reverse` = copy with the points
 reversed, `Track()` / `addObs`) returns: `None` / a path exactly when the list-level model does, with the same node list,
@@ -217,7 +222,7 @@ theorem path_optimal_track (net : Net W) (hnet : WFNet net) (hu : UniqueIds net)
 
 /-! ### several searches on one `Network` object -/
 
-omit [IsOrderedAddMonoid W] in
+omit [WalkAdd W] in
 /-- `shortest_path(source, target, cut[, output_dict])` called at any point of a session returns what it returns on
 a fresh network: it does not depend on the flags left on the nodes by earlier searches (`__resetFlags`), on whether
 the nodes are designated by id or by `Node` object (`__correctInputNode`), nor on an `output_dict` being passed; the
@@ -228,14 +233,14 @@ theorem session_path_fresh (net : Net W) (geo : GeoT) (order : List Nat) (se : S
       .path (shortestPathT net geo (correctInputNode s) (correctInputNode t) cut)
             (shortestDistance net (correctInputNode s) (correctInputNode t) cut) := rfl
 
-omit [IsOrderedAddMonoid W] in
+omit [WalkAdd W] in
 /-- `shortest_distance(source, target, cut[, output_dict])` at any point of a session = on a fresh network -/
 theorem session_dist_fresh (net : Net W) (geo : GeoT) (order : List Nat) (se : Sess W) (s t : NodeArg) (cut : Option W)
     (ud : Bool) :
     (stepOp net geo order se (.dist s (some t) cut ud)).2 =
       .dist (shortestDistance net (correctInputNode s) (correctInputNode t) cut) := rfl
 
-omit [IsOrderedAddMonoid W] in
+omit [WalkAdd W] in
 /-- the entries written to a caller's `output_dict` by `shortest_path(s, t, cut, output_dict)` and by
 `shortest_distance(s, t, cut, output_dict)` are the same, and so are the flags left on the nodes -/
 theorem session_path_dist_same_state (net : Net W) (geo : GeoT) (order : List Nat) (se : Sess W) (s t : NodeArg)
@@ -372,7 +377,7 @@ theorem next_edges_as_built (n : Nat) (es : List (Edge W × P × P)) (hu : Uniqu
   simp only [NetObj.empty, List.nil_append]
   exact lookup_next ⟨n, es.map (·.1)⟩ hu u (es.map (·.1)) (fun e he => he)
 
-omit [AddCommMonoid W] [LinearOrder W] [IsOrderedAddMonoid W] in
+omit [LinearOrder W] [Add W] [Zero W] [WalkAdd W] in
 /-- the position of a node is the coordinate of its FIRST registration: later `addNode` / `addEdge` calls that mention
 the same id with other `Node` objects (other coordinates) do not change it, and `addEdge` registers both its ends. This
 is the position `run_routing_backward` starts the geometry with (`Obs(node.coord)`). -/
@@ -487,7 +492,7 @@ theorem mut_geometry_chained (n : Nat) (ops : List (GraphMut.Op W)) (hno : ∀ o
   simp only [GraphMut.Out.path.injEq] at h
   exact geometry_chained_track (netOf o) hi.wf hi.uniq (geoOf o) hgeo _ _ hlt cut nodes trk h.1
 
-omit [IsOrderedAddMonoid W] in
+omit [WalkAdd W] in
 /-- FROZEN ORIENTATION. `getEdge(i).orientation = x` on a built network changes an attribute that only `addEdge` reads:
 whatever calls follow (routing calls, further modifications, further `addEdge`), every one of them returns exactly what it
 would have returned without the assignment. The directions in which an edge may be travelled are those of the moment it was
@@ -670,5 +675,20 @@ open TV.GraphMut in
 example : (netOf (runOps (Obj.new 6) (demoOps.eraseIdx 8)).2).edges.all (fun e =>
     let geo := (geoOf (runOps (Obj.new 6) (demoOps.eraseIdx 8)).2).toGeo
     (geo.line e.id).head? == some (geo.pos e.src) && (geo.line e.id).getLast? == some (geo.pos e.tgt)) = true := by decide +kernel
+
+/-! ### the theorems do not rest on associativity -/
+/-- weights in `TV.C06.R4` (natural numbers, a sum above 2 is rounded up to the next multiple of 4 — monotone, not
+associative): 0 →1→ 1 →2→ 2 weighs `(0 + 1) + 2 = 4` (rounded), the direct edge 5 -/
+def demoR : Net C06.R4 := { n := 3, edges := [⟨0, 0, 1, C06.R4.of 1, 1⟩, ⟨1, 1, 2, C06.R4.of 2, 1⟩, ⟨2, 0, 2, C06.R4.of 5, 1⟩] }
+example : WFNet demoR := by
+  intro e he
+  simp only [demoR, List.mem_cons, List.not_mem_nil, or_false] at he
+  rcases he with rfl | rfl | rfl <;> exact ⟨by decide, by decide, Nat.zero_le _⟩
+example : UniqueIds demoR := by
+  intro e he e' he' h
+  simp only [demoR, List.mem_cons, List.not_mem_nil, or_false] at he he'
+  rcases he with rfl | rfl | rfl <;> rcases he' with rfl | rfl | rfl <;> first | rfl | (exact absurd h (by decide))
+example : shortestPath demoR demoCutGeo 0 2 none = .path [0, 1, 2] [0, 1, 2] ∧ shortestDistance demoR 0 2 none = some (C06.R4.of 4) := by
+  decide +kernel
 
 end TV.C07
